@@ -7,7 +7,8 @@ property text.  Rules:
   R-C02-combinators     the aggregation formulas (file, rule, when, type block, query block, CNF, named rule,
                         rule_status, Status::and)
   R-C02-guard-skips     a `when` that is not PASS gives SKIP and the body is never evaluated
-  R-C02-record-status   the record that closes a function's own context carries the status it returns
+  R-C02-record-status   the record that closes a function's own context carries the status it returns; delegating tracers hand the
+                        record on unchanged, and the one rewriting wrapper rebuilds only the called rule's RuleCheck (name compared equal)
   R-C02-record-nesting  start_record / end_record are LIFO-balanced on every Ok path
 """
 from engine import ai, mirlib as M
